@@ -162,11 +162,41 @@ def _spec_worker(args):
                 out["problems"].append(("spec-roundtrip-counts-differ", tag))
             if rt(back.to_jsonable()) != j:
                 out["problems"].append(("spec-roundtrip-json-not-stable", tag))
+        # the same specification with its equivalence paths taken apart (group_equiv=False, a public option of the constructor):
+        # it must come back as it was dumped, not regrouped
+        from comb_spec_searcher.strategies.rule import EquivalencePathRule
+
+        if any(isinstance(r, EquivalencePathRule) for r in spec):
+            flat_rules = []
+            for r in spec:
+                flat_rules.extend(r.rules if isinstance(r, EquivalencePathRule) else [r])
+            flat = CombinatorialSpecification(spec.root, flat_rules, group_equiv=False)
+            out["flat"] = True
+            fj = rt(flat.to_jsonable())
+            fback = CombinatorialSpecification.from_dict(copy.deepcopy(fj))
+            if not (fback == flat and flat == fback):
+                out["problems"].append(("ungrouped-spec-roundtrip-not-equal", "group_equiv=False"))
+            elif sorted((repr(c), type(r).__name__) for c, r in fback.rules_dict.items()) != \
+                    sorted((repr(c), type(r).__name__) for c, r in flat.rules_dict.items()):
+                out["problems"].append(("ungrouped-spec-roundtrip-rule-types-differ", "group_equiv=False"))
+            elif rt(fback.to_jsonable()) != fj:
+                out["problems"].append(("ungrouped-spec-roundtrip-json-not-stable", "group_equiv=False"))
         for r in spec:
             f = form_of(r)
             if f is not None:
                 out["forms"].append((f, shape(rt(r.to_jsonable()))))
         pack = searcher.strategy_pack
+        # the same pack with empty expansion sets (placeholder levels) before / between / after its own: levels and their order are
+        # part of the pack
+        exp = [list(x) for x in pack.expansion_strats]
+        for padded in ([[]] + exp, exp + [[]], [[]] + exp + [[], []]):
+            pk = StrategyPack(initial_strats=list(pack.initial_strats), inferral_strats=list(pack.inferral_strats), expansion_strats=padded,
+                              ver_strats=list(pack.ver_strats), name=pack.name, symmetries=list(pack.symmetries), iterative=pack.iterative)
+            pb = StrategyPack.from_dict(rt(pk.to_jsonable()))
+            if not (pb == pk and pk == pb) or [len(x) for x in pb.expansion_strats] != [len(x) for x in pk.expansion_strats]:
+                out["problems"].append(("pack-with-empty-expansion-set-roundtrip-not-equal",
+                                        f"{[len(x) for x in pk.expansion_strats]} -> {[len(x) for x in pb.expansion_strats]}"))
+                break
         pj = rt(pack.to_jsonable())
         if sorted(pj) != sorted(["name", "initial_strats", "inferral_strats", "expansion_strats", "ver_strats", "symmetries", "iterative"]) \
                 or not all(isinstance(x, list) for x in pj["expansion_strats"]):  # the layout modelled by packToJ
@@ -279,6 +309,7 @@ def run(tier, seed, factor=1):
         if o["status"] == "spec":
             res.traces += 1
             pairs += [(p, o["cfg"]) for p in o["forms"]]
+            res.dist["spec also round-tripped with its paths taken apart (group_equiv=False)"] += 1 if o.get("flat") else 0
         if o.get("layout"):
             res.diff("JSON layout of specifications / packs vs the Lean model (specToJ, packToJ)", o["cfg"], "root,rules / name,*_strats,symmetries,iterative", o["layout"])
         for sig, detail in o["problems"]:
